@@ -71,6 +71,10 @@ func (b Blob) IsManifest() bool { return b.Kind == "manifest" }
 //	untag    ref             Untag(ref)
 //	delete   blob            Delete(desc(blob))      (AutoGC off: plain delete)
 //	saveindex                SaveIndex()
+//	gc                       GC()
+//	reopen                   oci.New on the same directory (a second store object)
+//
+// With Script.AutoGC the store runs with AutoGC on: delete is then a cascade.
 type Op struct {
 	Kind string `json:"kind"`
 	Blob int    `json:"blob,omitempty"`
@@ -100,11 +104,16 @@ type Segment struct {
 	Final   Op   `json:"final"`
 	K       int  `json:"k"`
 	J       int  `json:"j,omitempty"`
+	// filled in by the harness when the segment is executed: the operations in
+	// the model runner's syntax (a cascade / a sweep lists what it unlinked)
+	Enc      []string `json:"-"`
+	FinalEnc string   `json:"-"`
 }
 
 // Script = universe + earlier crashed runs + history of completed operations of
 // the last process + the operation it is interrupted in.
 type Script struct {
+	AutoGC  bool      `json:"auto_gc,omitempty"`
 	Blobs   []Blob    `json:"blobs"`
 	Pre     []Segment `json:"pre,omitempty"`
 	History []Op      `json:"history"`
